@@ -303,7 +303,8 @@ def evaluate__treat_expression(self: XPathToken, context: ta.ContextType = None)
                 raise self.error('XPDY0050', "more than one item in sequence")
             castable_expr.append(item)
         else:
-            if position is None and occurs not in ('*', '?'):
+            if position is None and occurs not in ('*', '?') \
+                    and not isinstance(context, XPathSchemaContext):
                 raise self.error('XPDY0050', "the sequence cannot be empty")
     else:
         type_name = self[1].source.rstrip('*+?')
@@ -328,7 +329,8 @@ def evaluate__treat_expression(self: XPathToken, context: ta.ContextType = None)
                     raise self.error('XPDY0050', "more than one item in sequence")
                 castable_expr.append(item)
         else:
-            if position is None and occurs not in ('*', '?'):
+            if position is None and occurs not in ('*', '?') \
+                    and not isinstance(context, XPathSchemaContext):
                 raise self.error('XPDY0050', "the sequence cannot be empty")
 
     return castable_expr
@@ -378,6 +380,8 @@ def evaluate__cast_expressions(self: XPathToken, context: ta.ContextType = None)
             return [] if self.symbol == 'cast' else True
         elif self.symbol != 'cast':
             return False
+        elif isinstance(context, XPathSchemaContext):
+            return UntypedAtomic('1')  # the operand selects nothing in the schema
         else:
             raise self.error('XPTY0004', "an atomic value is required")
 
